@@ -101,6 +101,8 @@ class FnVerifier(ExprMixin, StmtMixin, CallMixin):
         if out is not None:
             scratch.env['out'] = out
         saved_old = self.spec_old
+        saved_env = getattr(self, 'spec_env', None)
+        self.spec_env = dict(env) if env is not None else (saved_env if self.specmode else None)
         self.spec_old = old if old is not None else (saved_old if self.specmode else self.entry)
         self.specmode += 1
         n0 = len(scratch.pc)
@@ -109,6 +111,10 @@ class FnVerifier(ExprMixin, StmtMixin, CallMixin):
         finally:
             self.specmode -= 1
             self.spec_old = saved_old
+            self.spec_env = saved_env
+        for k, arr in scratch.heap.items():       # components first read by the specification stay the same components afterwards
+            if k not in st.heap:
+                st.heap[k] = arr
         return v, scratch.pc[n0:]
 
     def spec_bool(self, src, st, **kw):
@@ -168,6 +174,9 @@ class FnVerifier(ExprMixin, StmtMixin, CallMixin):
         if self.is_generator:
             e = self.c.generator
             st.out = SeqV(e, fresh('out0', z3.ArraySort(z3.IntSort(), sort_of(e))), z3.IntVal(0))
+        from .state import _key_sorts
+        for key in list(_key_sorts):
+            st.H(key)
         self.entry = st.copy()
         for r in self.c.requires:
             self.assume_spec(r, st, old=self.entry)
